@@ -19,7 +19,7 @@ def search(ctx):
 
 def run(ctx):
     ctx.prove()
-    worlds = "1500" if ctx.tier == "thorough" else "60"
+    worlds = "1500" if ctx.tier == "thorough" else "120"
     ctx.correspond("h_validate", "Validate", nontrivial=NONTRIVIAL,
                    env={"VERIF_VALIDATE_MODE": "c05", "VERIF_VALIDATE_WORLDS": worlds})
     if ctx.tier == "thorough":
